@@ -26,3 +26,51 @@ PROPS["C05"] = dict(
                  "(the property leaves them open)",
                  "the hook runs the same private reader types xargs uses; the pipe between a real producer and the xargs binary is covered by C07"],
 )
+
+PROPS["C04"] = dict(
+    level_text="The batching loop with its limiter chain is model-checked against the declarative limits (lossless, within -n/-L/-s, maximal, "
+               "empty-input and oversize rules) over all small argument sequences and option combinations; the real xargs binary is driven "
+               "with every such input (recorder command logs each argv) and with seeded random inputs up to thousands of arguments whose "
+               "recorded invocations TLC checks against the reference outcomes.",
+    level_note="Trusted: TLC, the recorder command, the synthesis of stdin from (length, line-end) sequences. The operating system's own budget is "
+               "outside this check (C06); inputs stay far below it. Bounds in spec/mc/MC_C04_*.cfg.",
+    mc=[dict(module="mc/MC_C04.tla", cfg=dict(quick="mc/MC_C04_quick.cfg", thorough="mc/MC_C04_thorough.cfg"), workers=12)],
+    record=dict(quick=700, thorough=12000),
+    selftest=dict(quick=40, thorough=200),
+    trace=dict(module="trace/T_C04.tla", cfg="trace/T_C04.cfg"),
+    trace_chunk=400,
+    rule="MC: all argument sequences up to MAXARGS over lengths LENS x line-end flags x n x L x s x -x x -r x system budget; "
+         "vectors = those inputs with the system budget not binding; trace: random sequences (0..3000 arguments, lengths 1..60, "
+         "varied separators incl. blank-before-newline continuation), options drawn at random.",
+    exhaustive_note="bounded-exhaustive",
+    assumptions=["children all exit 0 (exit-status aggregation is C19)", "total argument size below the OS budget (C06)"],
+)
+
+PROPS["C19"] = dict(
+    level_text="The sticky-result loop is model-checked over all outcome sequences up to MAXLEN; every such sequence is replayed on the real xargs "
+               "binary with a recorder command whose exit status / fatal signal is scripted per invocation, and random longer scripts are validated by TLC.",
+    level_note="Trusted: TLC, the recorder's scripted outcomes. Child statuses 126..254 are left open by the property and skipped.",
+    mc=[dict(module="mc/MC_C19.tla", cfg=dict(quick="mc/MC_C19_quick.cfg", thorough="mc/MC_C19_thorough.cfg"))],
+    record=dict(quick=300, thorough=5000),
+    selftest=dict(quick=30, thorough=100),
+    trace=dict(module="trace/T_C19.tla", cfg="trace/T_C19.cfg"),
+    rule="MC: every sequence of child outcomes (0, 1..125, 255, killed by signal) up to MAXLEN; trace: random scripts up to 200 invocations with -n 1..3, "
+         "missing / non-executable command, bad option values, unterminated quote, oversize argument.",
+    exhaustive_note="bounded-exhaustive",
+    assumptions=["outcomes 126..254 of a child are outside the property"],
+)
+
+PROPS["C20"] = dict(
+    level_text="Mode selection among -I/-n/-L and the replace-mode run are specified in TLA+; TLC enumerates all option orders, templates and line lists "
+               "within the bounds, checks the laws (one run per non-empty line, nothing appended, last option wins, -n 1 compatible) and prints each "
+               "case as a vector replayed on the real binary; random larger cases are validated by TLC.",
+    level_note="Trusted: TLC, the recorder. Domain as the property states it (lines free of quotes, backslashes, leading/trailing blanks).",
+    mc=[dict(module="mc/MC_C20.tla", cfg=dict(quick="mc/MC_C20_quick.cfg", thorough="mc/MC_C20_thorough.cfg"))],
+    record=dict(quick=400, thorough=6000),
+    selftest=dict(quick=30, thorough=100),
+    trace=dict(module="trace/T_C20.tla", cfg="trace/T_C20.cfg"),
+    rule="MC: all sequences of up to MAXOPTS options from {-I R, -I {}, -n 1, -n 2, -L 1, -L 2} x 6 templates x all line lists up to MAXLINES over "
+         "{a, 'b c', R, empty}; trace: random options (-I/-i/--replace[=R]), templates with 0..many occurrences, multi-byte text.",
+    exhaustive_note="bounded-exhaustive",
+    assumptions=[],
+)
